@@ -22,6 +22,7 @@ CONFIGS = {
     "C": ["-std=gnu17", "-DUSE_MEMORY_ALLOCATION_FREE=0"],
     "D": ["-std=gnu17", "-DUSE_CUSTOM_DTOSTRE=1"],
     "E": ["-std=c89"],
+    "F": ["-std=gnu17", "-DUSE_UNITS_IMPERIAL=1"],
 }
 CONFIG_DESC = {
     "A": "Makefile default (-std=gnu17): info text on, malloc, snprintf",
@@ -29,6 +30,7 @@ CONFIG_DESC = {
     "C": "-DUSE_MEMORY_ALLOCATION_FREE=0 (static info heap)",
     "D": "-DUSE_CUSTOM_DTOSTRE=1 (library float formatter)",
     "E": "-std=c89 (library fall-backs for snprintf/strndup/strnlen/strncasecmp; bool is unsigned char)",
+    "F": "-DUSE_UNITS_IMPERIAL=1 (every optional group of the unit table compiled in)",
 }
 
 
